@@ -84,6 +84,40 @@ PROPS = {
                       "the extractor's reading of ClaimHash (format literal, argument list), of the claim structs and of the handlers' `claim.X` selectors (Gen/Claims.lean, printed in evidence)"],
         assumptions=["chain_reference_id is bound by the attestation key's store prefix, not by the hash"],
     ),
+    "C16": dict(
+        lean_modules=["PalomaModel.Props.C16"],
+        harness_test="TestC16",
+        n_quick=150, n_thorough=1500, thorough_seeds=8, timeout_quick=900,
+        spec_ops=[],
+        rule="full-app fixture (real ante chain and msg router), 4 users + 2 contract stand-ins; histories of 20-31 ops: create / mint / burn / change-admin / set-metadata by any account on own, foreign, not-yet-created, native and malformed denoms "
+             "(2 parts, wrong prefix, non-bech32 creator, over-long, illegal characters), fee grants, forged signers, the exported wasm-binding entry points; distinct = distinct op text of the case; non-trivial = at least one accepted op",
+        trusted_base=[SDK_TRUST, "no coins exist under a factory-shaped denom at genesis (hypothesis hclean of supply_eq_mints_minus_burns)"],
+        assumptions=["wasm PerformMint mints to the contract (the admin) and then the contract itself transfers to mint_to_address: counted as a mint followed by the admin's own transfer"],
+    ),
+    "C08": dict(
+        lean_modules=["PalomaModel.Props.C08"], gen=["Nondet.lean"],
+        harness_test="TestC08",
+        n_quick=6, n_thorough=60, thorough_seeds=4, timeout_quick=900,
+        spec_ops=[],
+        level_text="PARTIAL. Lean 4 theorems: order-independence of every map-iteration on a consensus path (min/max window, total-order sort uniqueness, distinct-key writes, unique evidence winner) and, by decide over the inventory regenerated "
+                   "from the typed source on every run, that every map range / environment read / wall-clock read / randomness use is a justified shape. Go runtime behaviour (actual map order, process environment, restart) is exercised, not proved: twin execution of "
+                   "the full app comparing AppHash, results hash and per-store digests after every block.",
+        rule="twin execution: the same genesis and the same block/tx history on two full-app instances that differ in process environment (every env var the extractor found is set on one twin), restarts (app.New over the same DB at random heights), extra read-only queries between blocks, "
+             "and Go's per-run map randomisation; AppHash, LastResultsHash and per-store digests compared after every block; distinct = distinct histories; non-trivial = history with >= 10 delivered paloma txs",
+        trusted_base=[SDK_TRUST, "Go map order and process environment can be sampled, not enumerated: named limitation (DESIGN.md C08)"],
+        assumptions=[],
+    ),
+    "C18": dict(
+        lean_modules=["PalomaModel.Props.C18"],
+        harness_test="TestC18",
+        n_quick=150, n_thorough=1500, thorough_seeds=8, timeout_quick=900,
+        spec_ops=[],
+        rule="full-app fixture, one validator; signed txs through the real ante chain for licence creation / activation / authentication by any account, sales voted through the real oracle (MsgLightNodeSaleClaim + skyway end-blocker, "
+             "so the attestation's cached context is exercised), governance config through the proposal handlers; interleaved licences for several addresses incl. existing accounts, funders with/without (spendable) balance, right/wrong sale contract, "
+             "re-activation, vesting sampled at start / mid / end / end+1; distinct = distinct op text of the case; non-trivial = at least one accepted op",
+        trusted_base=[SDK_TRUST, "calendar arithmetic (time.AddDate) is taken from the Go side as an input of the op line; the SDK's half-even rounding of vesting at 18 decimals is modelled"],
+        assumptions=["'only by the licensed address itself' is proved in the form the ante chain implements: the signer is the licensee or an address the licensee issued a fee grant to"],
+    ),
 }
 
 LEVEL_TEXT = ("Lean 4 theorems (all inputs / histories / fault points, no bounds) about an executable model of the code; the model is tied to the Go code on "
